@@ -459,7 +459,7 @@ def main():
         'assumptions': STUBS + PROPS[prop].get('assumptions', []),
         'wall_s': round(time.time() - t0, 1), 'violations': nviol,
     }
-    evdir = os.path.join(ROOT, 'evidence') if not TAG else os.path.join(ROOT, 'build', TAG + 'evidence')
+    evdir = os.path.join(ROOT, 'evidence') if not (TAG or a.only) else os.path.join(ROOT, 'build', (TAG or 'partial_') + 'evidence')   # --only / seeded runs never touch the committed evidence
     os.makedirs(evdir, exist_ok=True)
     json.dump(ev, open(os.path.join(evdir, prop + '.json'), 'w'), indent=1)
     for l in kf_lines: print(l)
